@@ -448,12 +448,23 @@ def refusal_obligations(prop="C19"):
     ok = any(ast.unparse(n).replace(" ", "") == "self.exclude_dir.append(self.output_dir)" for n in ast.walk(pi) if isinstance(n, ast.Expr))
     out.append(OR(id=f"{prop}.S.settings.output_dir_excluded_from_discovery", status=PROVED if ok else REFUTED, kind="S", role="post", backend="ast",
                   target="ford.settings.ProjectSettings.__post_init__", desc="the output directory is added to exclude_dir"))
-    np = loader.find_def("ford.utils", "normalise_path")
-    txt = ast.unparse(np)
-    ok = ".resolve()" in txt and ".absolute()" in txt
-    out.append(OR(id=f"{prop}.S.utils.normalise_path.resolves", status=PROVED if ok else REFUTED, kind="S", role="post", backend="ast", target="ford.utils.normalise_path",
-                  desc="normalise_path returns an absolute path with symlinks and '..' resolved (the refusal compares such paths component-wise)"))
+    out.append(normalise_path_resolves(prop, "the refusal compares such paths component-wise"))
     return out
+
+
+def normalise_path_resolves(prop, why, replay=None):
+    np = loader.find_def("ford.utils", "normalise_path")
+    ret = [n for n in ast.walk(np) if isinstance(n, ast.Return) and n.value is not None]
+    # the returned expression ends in .resolve() (pathlib: absolute, '..' collapsed, symbolic links followed)
+    ok = bool(ret) and all(isinstance(r.value, ast.Call) and isinstance(r.value.func, ast.Attribute) and r.value.func.attr == "resolve" for r in ret)
+    r = OR(id=f"{prop}.S.utils.normalise_path.resolves", status=PROVED if ok else REFUTED, kind="S", role="post", backend="ast", target="ford.utils.normalise_path",
+           desc=f"normalise_path returns an absolute path with symlinks and '..' resolved ({why})")
+    if not ok:
+        r.witness = {"returns": [ast.unparse(x) for x in ret]}
+        r.detail = "the returned path is not canonical: a path through '..' or a symbolic link differs textually from its resolved form"
+        if replay:
+            r.replay = replay()
+    return r
 
 
 def glob_targets_are_owned(prop="C19"):
